@@ -91,6 +91,17 @@ def measure(job):
             if not cplx and np.iscomplexobj(y):
                 ev.append(("dtype", 1.0, "real input gave complex coefficients"))
         ev.append(("adjoint_shapes", 0.0 if (list(W.H.ishape) == list(W.oshape) and list(W.H.oshape) == list(W.ishape)) else 1.0, "Wavelet.H shapes"))
+        # data of very small and very large magnitude: every identity is homogeneous, nothing may underflow to a shortcut or overflow
+        try:
+            for scl, dt_ in ((1e-170, np.float64), (1e150, np.complex128), (1e-25, np.float32), (1e18, np.complex64)):
+                xs_ = ((rs.randn(*shape) + (1j * rs.randn(*shape) if np.issubdtype(dt_, np.complexfloating) else 0)) * scl).astype(dt_)
+                ys_ = sp.fwt(xs_, wave_name=c["wave"], axes=axes, level=level)
+                xb_ = sp.iwt(ys_, list(shape), sp.wavelet.get_wavelet_shape(shape, c["wave"], axes, level)[1], wave_name=c["wave"], axes=axes, level=level) if tuple(ys_.shape) == spec_osh else None
+                nxs = float(np.linalg.norm(xs_.astype(np.complex128) / scl))
+                rel = 1.0 if xb_ is None or tuple(xb_.shape) != tuple(shape) else float(np.linalg.norm((xb_.astype(np.complex128) - xs_.astype(np.complex128)) / scl)) / max(nxs, 1e-300)
+                ev.append(("reconstruct" if dt_ in (np.float64, np.complex128) else "reconstruct32", rel, "iwt(fwt x) vs x for data of magnitude %g (%s)" % (scl, np.dtype(dt_).name)))
+        except Exception as e:
+            ev.append(("exception", 1.0, "extreme magnitudes raised %r" % (e,)))
         # level / axes given as NumPy integers and lists
         try:
             xq = rs.randn(*shape)
@@ -143,7 +154,7 @@ def run(ctx):
     traces = []
     for k, (c, ev) in enumerate(results):
         traces.append({"id": "w%d" % k, "cfg": c, "ev": [{"cls": a, "val": fx(v)} for a, v, _ in ev], "notes": [n for _, _, n in ev]})
-    b = {"advertised_shape": 0, "coeff_shape": 0, "norm": fx(1e-9), "reconstruct": fx(1e-9), "adjoint": fx(1e-9), "purity": 0, "dtype": 0, "adjoint_shapes": 0, "exception": 0}
+    b = {"advertised_shape": 0, "coeff_shape": 0, "norm": fx(1e-9), "reconstruct": fx(1e-9), "reconstruct32": fx(1e-4), "adjoint": fx(1e-9), "purity": 0, "dtype": 0, "adjoint_shapes": 0, "exception": 0}
     defs = "MCBounds == " + " @@ ".join('"%s" :> %d' % (k2, v) for k2, v in sorted(b.items())) + "\n"
     tres, rej = tracecheck.validate("AccuracyTrace", [{"id": t["id"], "ev": t["ev"]} for t in traces], wd, constants=["Bounds <- MCBounds"], invariants=(), defs=defs, timeout=600)
     r.add_tlc(tres, "AccuracyTrace")
